@@ -207,7 +207,7 @@ def _mark_stale(ps, stale, since):
                     stale.add(c)
 
 
-def summarise(func, limit=6000, to_raise=True):
+def summarise(func, limit=6000, to_raise=True, lists=False):
     cfg = cfg_of(func)
     out = []
     for path in cfg.paths(limit=limit, to_raise=to_raise):
@@ -269,6 +269,17 @@ def summarise(func, limit=6000, to_raise=True):
                                        iter_bind.get('ITER(%s)' % norm_src(it)) == bind)
                 if bind is not None:
                     iter_bind.setdefault('ITER(%s)' % norm_src(it), bind)
+                # a list/tuple display has a known emptiness
+                disp = it
+                while isinstance(disp, ast.Call) and isinstance(disp.func, ast.Name) and \
+                        disp.func.id in ('reversed', 'list', 'tuple') and len(disp.args) == 1:
+                    disp = disp.args[0]
+                if lists and isinstance(disp, (ast.List, ast.Tuple)) and not any(
+                        isinstance(x, ast.Starred) for x in disp.elts):
+                    if lab == 'iter' and not disp.elts:
+                        ps.infeasible = True
+                    if lab == 'exhausted' and disp.elts and n.id not in iterated:
+                        ps.infeasible = True
                 if lab == 'iter':
                     iterated.add(n.id)
                     if isinstance(a.target, ast.Name):
@@ -320,6 +331,8 @@ def summarise(func, limit=6000, to_raise=True):
                         'yield' if isinstance(x, ast.Yield) else 'yieldfrom', n, x,
                         subst(x.value, env) if x.value is not None
                         else ast.Constant(value=None)))
+            if lists and isinstance(a, ast.Expr):
+                _track_list(a.value, env)
             if isinstance(a, ast.Assign):
                 v = subst(a.value, env)
                 for t in a.targets:
@@ -361,6 +374,51 @@ def summarise(func, limit=6000, to_raise=True):
     return out
 
 
+def _listish(e):
+    if isinstance(e, (ast.List, ast.ListComp)):
+        return True
+    if isinstance(e, ast.BinOp) and isinstance(e.op, ast.Add):
+        return _listish(e.left) or _listish(e.right)
+    if isinstance(e, ast.Call) and isinstance(e.func, ast.Name) and e.func.id == 'list' \
+            and len(e.args) <= 1 and not e.keywords:
+        return True
+    return False
+
+
+def _track_list(call, env):
+    """L.append(x) / L.extend(y) / L.insert(0, x) on a local bound to a
+    fresh list: the local now resolves to the extended content"""
+    if not (isinstance(call, ast.Call) and isinstance(call.func, ast.Attribute)
+            and isinstance(call.func.value, ast.Name) and not call.keywords):
+        return
+    L = call.func.value.id
+    cur = env.get(L)
+    if cur is None or not _listish(cur):
+        return
+    m = call.func.attr
+    args = [subst(x, env) for x in call.args]
+    new = None
+    if m == 'append' and len(args) == 1:
+        add = ast.List(elts=[args[0]], ctx=ast.Load())
+        new = ast.List(elts=list(cur.elts) + [args[0]], ctx=ast.Load()) \
+            if isinstance(cur, ast.List) else ast.BinOp(left=clone(cur), op=ast.Add(), right=add)
+    elif m == 'extend' and len(args) == 1:
+        y = args[0]
+        if not _listish(y):
+            y = ast.Call(func=ast.Name(id='list', ctx=ast.Load()), args=[y], keywords=[])
+        new = ast.BinOp(left=clone(cur), op=ast.Add(), right=y)
+    elif m == 'insert' and len(args) == 2 and isinstance(args[0], ast.Constant) \
+            and args[0].value == 0:
+        new = ast.List(elts=[args[1]] + list(cur.elts), ctx=ast.Load()) \
+            if isinstance(cur, ast.List) else ast.BinOp(
+                left=ast.List(elts=[args[1]], ctx=ast.Load()), op=ast.Add(), right=clone(cur))
+    if new is not None and size(new) < MAX_NODES:
+        for x in ast.walk(new):
+            if not hasattr(x, 'lineno') and hasattr(cur, 'lineno'):
+                x.lineno, x.col_offset = cur.lineno, cur.col_offset
+        env[L] = new
+
+
 def _assign(ps, n, t, v, env):
     if isinstance(t, ast.Name):
         env[t.id] = v if (v is not None and size(v) < MAX_NODES) else None
@@ -382,10 +440,12 @@ def _assign(ps, n, t, v, env):
 _sum_cache = {}
 
 
-def summaries(func, normal_only=True):
-    key = (id(func), normal_only)
+def summaries(func, normal_only=True, lists=False):
+    """lists=True: the content of fresh local lists is tracked through
+    append / extend / insert(0, x) (the local resolves to its content so far)"""
+    key = (id(func), normal_only, lists)
     if key not in _sum_cache:
-        ss = summarise(func, to_raise=not normal_only)
+        ss = summarise(func, to_raise=not normal_only, lists=lists)
         if normal_only:
             ss = [s for s in ss if s.kind != 'raise' or s.ret_node is not None]
         _sum_cache[key] = ss
